@@ -129,7 +129,7 @@ CHECKS = {
         tiers=dict(quick=dict(checks=2, timeout=900), thorough=dict(checks=40, timeout=3400, env=dict(VERIF_MUTATIONS=30))),
         technique="structured mutation fuzzing of real WAL files, fresh-process replay, model oracle",
         env=dict(VERIF_SHRINK="5s"),
-        rule="a valid WAL is produced by really executing a generated history (state: WAL synced, primary files not yet "
+        rule="a valid WAL is produced by really executing a generated history with repeated intervals (state: WAL synced, primary files not yet "
              "written); rapid draws byte-level mutations biased to record and field boundaries: truncate, 1-3 bit flips, "
              "overwrite/insert garbage runs, duplicate a record, swap two records, corrupt a length field (negative, "
              "tiny, huge), checksum-valid adversarial contents (WT count, path length, data length, path, record type); "
